@@ -560,6 +560,22 @@ def check_osdd_array(case, cc):
                     cc.dev('array-copy==elementwise', 'element:%s:%s' % (dt, kind), 'convert_array on %s %r -> %r element %d: %r -> %r exact %r bound %g' % (
                         dt, c1, c2, i, v, g, float(w), b))
                     break
+            # in place an array of whole numbers cannot hold the converted values: the call either refuses (numpy's casting
+            # error) or - when every converted value is a whole number in range - leaves exactly those; never other numbers
+            arr2 = np.array(ints, dtype=dt).reshape(shape)
+            try:
+                U.convert_array_inplace(arr2, u1, u2)
+            except Exception:  # noqa
+                cc.cls('array-inplace-integer-refused')
+            else:
+                cc.cls('array-inplace-integer-accepted')
+                for i, (v, g) in enumerate(zip(ints, [float(x) for x in arr2.reshape(-1)])):
+                    w = f(float(v))
+                    b = ref.bound(float(v), s1, o1, s2, o2)
+                    if not ref.within(g, w, b):
+                        cc.dev('array-inplace==elementwise', 'integer-array-holds-other-numbers', 'convert_array_inplace on %s %r -> %r element %d: %r -> %r, exact %r' % (
+                            dt, c1, c2, i, v, g, float(w)))
+                        break
     n = len(values)
     cc.nt(_nontrivial_pair(table, c1, c2) and n >= 2)
     cc.cls('array-offset-pair', kind == 'with-offset' and n >= 1)
